@@ -234,7 +234,21 @@ def _else_resume(f):
     return "Syntax.UnexpectedToken" in blob
 
 
-_MATCHERS = {"KF-ELSE-RESUME": _else_resume}
+def _nested_else(f):
+    """KF-NESTED-ELSE: a grammatical line (no more ELSE than IF) whose THEN-clause is an IF with an ELSE and which has a second
+    ELSE, failing with UnexpectedToken."""
+    texts = [_unhex(o.split(" ", 1)[1]) for o in f.get("ops", []) if o.startswith("start ") and " " in o]
+    def shape(t):
+        ifs = len(re.findall(r"\bIF\b", t, re.I))
+        elses = len(re.findall(r"\bELSE\b", t, re.I))
+        return elses >= 2 and ifs >= elses and re.search(r"THEN\s*IF\b.*\bELSE\b.*\bELSE\b", t, re.I) is not None
+    if not any(shape(t) for t in texts):
+        return False
+    blob = " ".join(f.get("impl_replies", [])) + " " + str(f.get("detail", ""))
+    return "Syntax.UnexpectedToken" in blob
+
+
+_MATCHERS = {"KF-ELSE-RESUME": _else_resume, "KF-NESTED-ELSE": _nested_else}
 
 
 def known_match(pid, failure):
